@@ -37,14 +37,17 @@ def run_miri(job):
     rc, out = sh(cmd, env={"MIRIFLAGS": miri_flags(job)}, timeout=3600)
     return rc, out
 
-def asan_bin():
-    return os.path.join(os.environ.get("CARGO_TARGET_DIR") or os.path.join(HERE, "target"), TARGET, "debug", "memsim")
+def asan_bin(job=None):
+    # two ASan builds: dev profile (debug assertions and overflow checks on: the standard library's own precondition
+    # checks fire first) and release profile (as the crate ships: the detector sees the access itself)
+    build = "release" if job and job.get("build") == "release" else "debug"
+    return os.path.join(os.environ.get("CARGO_TARGET_DIR") or os.path.join(HERE, "target"), TARGET, build, "memsim")
 
 def run_asan(job):
     e = dict(os.environ)
     e["ASAN_OPTIONS"] = "detect_leaks=1:abort_on_error=0:halt_on_error=1"
     try:
-        p = subprocess.run([asan_bin(), str(job["workload_seed"]), str(job["first"]), str(job["n"])] + ([job["mode"]] if job.get("mode") else []),
+        p = subprocess.run([asan_bin(job), str(job["workload_seed"]), str(job["first"]), str(job["n"])] + ([job["mode"]] if job.get("mode") else []),
                            cwd=HERE, env=e, stdout=subprocess.PIPE, stderr=subprocess.STDOUT, text=True, timeout=3600)
         return p.returncode, p.stdout
     except subprocess.TimeoutExpired as ex:
@@ -99,6 +102,11 @@ def build():
     if rc != 0:
         print("HARNESS-ERROR: ASan build failed:\n" + out[-3000:], file=sys.stderr)
         sys.exit(2)
+    rc, out = sh(["cargo", "+nightly", "build", "--release", "--offline", "-q", "--features", "ffi", "--target", TARGET],
+                 env={"RUSTFLAGS": "-Zsanitizer=address"}, timeout=3600)
+    if rc != 0:
+        print("HARNESS-ERROR: ASan release build failed:\n" + out[-3000:], file=sys.stderr)
+        sys.exit(2)
     return time.time() - t0
 
 def replay(path):
@@ -140,7 +148,8 @@ def main():
     asan_n = 1500 if not thorough else 120000
     for j in range(JOBS):
         # real OS threads are not under a scheduler we control: the concurrency template stays in the Miri lane
-        jobs.append({"lane": "asan", "workload_seed": SEED, "first": 1_000_000 + j * asan_n, "n": asan_n, "mode": "no-threads"})
+        jobs.append({"lane": "asan", "workload_seed": SEED, "first": 1_000_000 + j * asan_n, "n": asan_n, "mode": "no-threads",
+                     "build": "release" if j % 4 == 3 else "debug"})
     results = []
     with ThreadPoolExecutor(max_workers=JOBS) as ex:
         for job, (rc, out) in zip(jobs, ex.map(run_job, jobs)):
@@ -220,6 +229,7 @@ def main():
             "miri_histories": histories["miri"],
             "asan_executions": executions["asan"],
             "asan_histories": histories["asan"],
+            "asan_builds": "three jobs in four run the dev-profile build (debug assertions and overflow checks on: the standard library's own precondition checks fire first), one in four the release-profile build (as the crate ships: the detector sees the access itself)",
             "op_kinds_executed": ops,
             "histories_per_hour": int(total_hist / wall * 3600) if wall > 0 else 0,
             "build_s": build_s,
